@@ -345,6 +345,7 @@ pub fn c11(tier: Tier) -> i32 {
                     l.nontrivial += 1;
                     let mut out: Vec<u8> = vec![];
                     let mut problem: Option<String> = None;
+                    let mut rewrite_bad = false;
                     let res = catch_unwind(AssertUnwindSafe(|| match format {
                         Format::Fastq => {
                             let mut rdr = seq_io::fastq::Reader::with_capacity(&data[..], cap);
@@ -354,11 +355,28 @@ pub fn c11(tier: Tier) -> i32 {
                                     r.unwrap();
                                     for rec in &set {
                                         rec.write_unchanged(&mut out).unwrap();
+                                        use seq_io::fastq::Record;
+                                        let mut a = vec![];
+                                        rec.write(&mut a).unwrap();
+                                        let mut b = vec![];
+                                        seq_io::fastq::write_to(&mut b, rec.head(), rec.seq(), rec.qual()).unwrap();
+                                        if a != b {
+                                            rewrite_bad = true;
+                                        }
                                     }
                                 }
                             } else {
                                 while let Some(r) = rdr.next() {
-                                    r.unwrap().write_unchanged(&mut out).unwrap();
+                                    let rec = r.unwrap();
+                                    rec.write_unchanged(&mut out).unwrap();
+                                    use seq_io::fastq::Record;
+                                    let mut a = vec![];
+                                    rec.write(&mut a).unwrap();
+                                    let mut b = vec![];
+                                    seq_io::fastq::write_to(&mut b, rec.head(), rec.seq(), rec.qual()).unwrap();
+                                    if a != b {
+                                        rewrite_bad = true;
+                                    }
                                 }
                             }
                         }
@@ -381,6 +399,8 @@ pub fn c11(tier: Tier) -> i32 {
                     }));
                     if let Err(e) = res {
                         problem = Some(format!("panic: {}", crate::rdr::panic_msg(e)));
+                    } else if rewrite_bad {
+                        problem = Some("Record::write of a parsed record differs from write_to(head, seq, qual)".into());
                     } else {
                         match format {
                             Format::Fastq => {
